@@ -45,6 +45,9 @@ checks = {
  "C03": ("model_checking", "stateless exploration of all interleavings up to a preemption bound on both sides under one controlled scheduler: the generated Go program (sync and go statements routed to the scheduler) and goose's real output on the GooseLang reference interpreter; outcome-set comparison",
          "For every program of the concurrent grammar: every result Go produces within the bound is produced by some explored GooseLang interleaving; schedule-independent Go results are reproduced by every explored GooseLang interleaving with no deadlock, stuck thread or data race.",
          "reference interpreter semantics for locks / condition variables / wait groups / Fork (stutter-free waits); preemption bound; logical time", "2 C03"),
+ "C08": ("exploration", "bounded-exhaustive enumeration of import graphs (routes to the FFI packages: direct, through helpers, hidden behind an FFI; one and two routes) and of import paths over a component alphabet, in a generated module with local stub modules, translated by the real goose; compared with a small reference function",
+         "For every enumerated client package: the prelude/footer is that of the unique reachable FFI (two FFIs refused), the Require lines are exactly the sorted, de-duplicated, mapped non-builtin imports (trusted namespace for trusted_*), and the file lands at the mapped package path.",
+         "component alphabet and route depth bounded; refusal judged as no-file + non-zero exit", "2 C08"),
 }
 todo = {}
 man = {
